@@ -29,7 +29,7 @@ RULE_TEXT = ('runs = seeded random suites of 2..6 cases (disturbers: env in both
              'with --suite + every case alone beside exactly.suite (+ the sub-suite case). Non-trivial = at least one '
              'disturber ran before an observer in one of the runs; distinct = (case kinds and endings in order, suite '
              'phases, sub-suite phases, preprocessor).')
-REACH_PROBES = ['suite_conf_status', 'suite_conf_actor', 'disturber_before_observer', 'disturber_ended_by_exception', 'disturber_ended_by_timeout',
+REACH_PROBES = ['preprocessor_fails_for_one_case', 'suite_conf_status', 'suite_conf_actor', 'disturber_before_observer', 'disturber_ended_by_exception', 'disturber_ended_by_timeout',
                 'disturber_ended_by_hard_error', 'disturber_failing_cleanup', 'observer_foreign_symbol_reference',
                 'observer_same_symbol_names', 'suite_phase_setup', 'suite_phase_before_assert', 'suite_phase_assert',
                 'suite_phase_cleanup', 'sub_suite_case', 'suite_preprocessor', 'mode_suite_run', 'mode_permuted',
@@ -146,6 +146,10 @@ def make_plan(i, master, tier):
     if g.random() < 0.5:
         sub = {'phases': sorted(g.sample(PHASES, g.randint(0, 3)), key=PHASES.index),
                'case': gen_case(g, 'u0', g.choice(['observer', 'disturber']))}
+    preprocessor = g.random() < 0.3
+    if preprocessor and g.random() < 0.6:
+        # the suite's preprocessor fails for one case: that case is PRE_PROCESS_ERROR in every mode - and only that case
+        g.choice(cases)['ppfail'] = True
     perm = list(range(len(cases)))
     if g.random() < 0.5:
         perm.reverse()
@@ -153,7 +157,7 @@ def make_plan(i, master, tier):
         g.shuffle(perm)
     return {'format': 1, 'property': PROPERTY, 'engine': 'c17', 'run_seed': seed, 'tier': tier,
             'knobs': {'mem_buff_size': g.choice([1, 8192])}, 'entry': 'cli', 'cases': cases, 'suite_phases': suite_phases,
-            'preprocessor': g.random() < 0.25, 'sub': sub, 'perm': perm, 'sweep': False,
+            'preprocessor': preprocessor, 'sub': sub, 'perm': perm, 'sweep': False,
             # case configuration supplied by the suite's [conf]: applies to directly listed cases, in every run mode
             'suite_conf': {'status_fail': g.random() < 0.2, 'actor': g.random() < 0.2}}
 
@@ -311,7 +315,10 @@ def _record(sim, w, s0, s1, t0, t1, sandbox_index):
 def execute(plan, scratch):
     w = world_mod.World(os.path.join(scratch, 'w'))
     cases = plan['cases']
-    procs = {'pp': {'exit': 0, 'cat_last_arg_file': True}, 'interp': {'exit': 0}}
+    procs = {'pp': {'exit': 0, 'cat_last_arg_file': True,
+                    'when_arg': [{'contains': c['id'] + '.case', 'exit': 3, 'stderr': 'pp failed\n', 'cat_last_arg_file': False}
+                                 for c in cases if c.get('ppfail')]},
+             'interp': {'exit': 0}}
     faults = []
     for c in cases + ([plan['sub']['case']] if plan['sub'] else []):
         procs.update(c['procs'])
@@ -425,6 +432,8 @@ def _probes(plan, hist):
         pr['sub_suite_case'] = 1
     if plan['preprocessor']:
         pr['suite_preprocessor'] = 1
+        if any(c.get('ppfail') for c in plan['cases']):
+            pr['preprocessor_fails_for_one_case'] = 1
     if (plan.get('suite_conf') or {}).get('status_fail'):
         pr['suite_conf_status'] = 1
     if (plan.get('suite_conf') or {}).get('actor'):
@@ -496,6 +505,12 @@ def oracle(plan, hist):
                 bad('suite_preprocessor_applies_to_directly_listed_cases_only', bool(want_pp), [e['args'] for e in pps],
                     case=cid, mode=mode)
             events = [e for e in events if e['id'] != 'pp']
+            if c.get('ppfail') and want_pp:
+                if rec['ident'] != 'PRE_PROCESS_ERROR':
+                    bad('outcome', 'PRE_PROCESS_ERROR', rec['ident'], case=cid, mode=mode)
+                if events:
+                    bad('case_that_cannot_be_preprocessed_executes_nothing', [], [e['id'] for e in events], case=cid, mode=mode)
+                continue
             if cp['invalid']:
                 if rec['ident'] != 'VALIDATION_ERROR':
                     bad('symbols_do_not_carry_over' if c['end'] == 'foreign_symbol' else 'outcome',
